@@ -3,6 +3,7 @@ package main
 import (
 	"fmt"
 	"math"
+	"reflect"
 	"sort"
 
 	"gonum.org/v1/gonum/stat/distuv"
@@ -73,6 +74,7 @@ var fitKinds = []fitKind{
 }
 
 func (m *mon) runUVFit() {
+	m.conjugateInventory()
 	nCases := m.c.Pick(60, 600)
 	type job struct{ kind, idx int }
 	var jobs []job
@@ -275,6 +277,7 @@ func (m *mon) runUVFit() {
 
 		// (4) ConjugateUpdate == pooling
 		m.conjugate(a, fk, r, sx, sw, class)
+		m.conjugateDeep(a, fk, r, j.idx)
 	})
 }
 
@@ -350,4 +353,207 @@ func (m *mon) conjugate(a *acc, fk fitKind, r *vrt.Rand, xs, ws []float64, class
 	for k := range strength {
 		a.near("conjugate.strength", "distuv."+fk.name+".ConjugateUpdate|"+class+"|prior-strength-not-advanced", where, strength[k], nA+nB, 1e-12*(nA+nB))
 	}
+}
+
+// conjugateDeep exercises ConjugateUpdate with priors whose strengths are
+// unequal and non-integer and whose parameters are not the defaults. The
+// documented meaning ("the prior is having seen strength[k] samples with
+// ...", "strength is modified to include the new number of samples
+// observed") fixes (a) the posterior in closed form, (b) the strengths
+// written back into the argument (each component advanced by the sample
+// weight), (c) associativity: A then B == A and B pooled == B then A, on
+// parameters and strengths, and (d) that an empty batch changes nothing.
+func (m *mon) conjugateDeep(a *acc, fk fitKind, r *vrt.Rand, idx int) {
+	if _, ok := fk.fresh().(conjugater); !ok {
+		return
+	}
+	weighted := idx%2 == 0
+	gen := func(n int) (x, w []float64) {
+		x = make([]float64, n)
+		for i := range x {
+			x[i] = fk.gen(r)
+		}
+		if weighted {
+			w = make([]float64, n)
+			for i := range w {
+				w[i] = math.Exp(r.Uniform(-1.5, 1.5))
+			}
+		}
+		return
+	}
+	xa, wa := gen(r.Range(2, 30))
+	xb, wb := gen(r.Range(2, 30))
+	nss := fk.fresh().(conjugater).NumSuffStat()
+	prior := make([]float64, len(fk.names))
+	for k := range prior {
+		prior[k] = math.Exp(r.Uniform(-1, 1.5))
+		if fk.names[k] == "Mu" {
+			prior[k] = r.Uniform(-4, 6)
+		}
+	}
+	str0 := make([]float64, nss)
+	for k := range str0 {
+		str0[k] = []float64{2, 6, 0.75, 11.5, 3.25}[(idx+3*k)%5]
+	}
+	if nss == 2 && str0[0] == str0[1] {
+		str0[1] += 1.5
+	}
+	class := "unequal-strengths"
+	if nss == 1 {
+		class = "non-integer-strength"
+	}
+	if weighted {
+		class += ",weighted"
+	}
+	where := fmt.Sprintf("distuv.%s.ConjugateUpdate prior %v strengths %v |A|=%d |B|=%d case %d", fk.name, prior, str0, len(xa), len(xb), idx)
+	m.c.LastCase(where)
+	sigp := "distuv." + fk.name + ".ConjugateUpdate|" + class + "|"
+	mk := func() conjugater {
+		c := fk.fresh().(conjugater)
+		setParams(c, prior)
+		return c
+	}
+	type state struct{ par, str []float64 }
+	run := func(batches ...[2][]float64) (state, bool) {
+		c := mk()
+		str := append([]float64(nil), str0...)
+		for _, b := range batches {
+			ss := make([]float64, nss)
+			n := c.SuffStat(ss, b[0], b[1])
+			before := append([]float64(nil), str...)
+			ssCopy := append([]float64(nil), ss...)
+			if msg, panicked := try(func() { c.ConjugateUpdate(ss, n, str) }); panicked {
+				a.fail(sigp+"panics", where, "panic: %s", msg)
+				return state{}, false
+			}
+			a.eval("distuv."+fk.name+".ConjugateUpdate|"+class, 1)
+			// (b) every strength advanced by exactly the sample weight; suffStat not modified
+			for k := range str {
+				a.near("conjugate.strength", sigp+"strength-not-advanced-by-sample-weight", where+fmt.Sprintf(" component %d", k), str[k], before[k]+n, 1e-14*(before[k]+n))
+			}
+			for k := range ss {
+				if ss[k] != ssCopy[k] {
+					a.fail(sigp+"modifies-suffStat", where, "suffStat %v -> %v", ssCopy, ss)
+				}
+			}
+		}
+		return state{fk.params(c), str}, true
+	}
+	cat := func(p, q []float64) []float64 {
+		if p == nil {
+			return nil
+		}
+		return append(append([]float64(nil), p...), q...)
+	}
+	A, B := [2][]float64{xa, wa}, [2][]float64{xb, wb}
+	AB := [2][]float64{cat(xa, xb), cat(wa, wb)}
+	sAB, ok1 := run(A, B)
+	sBA, ok2 := run(B, A)
+	sP, ok3 := run(AB)
+	if !(ok1 && ok2 && ok3) {
+		return
+	}
+	scale := math.Abs(sP.par[len(sP.par)-1]) + math.Abs(sP.par[0])
+	cmp := func(clause string, x, y state) {
+		for k := range x.par {
+			a.near("conjugate.assoc", sigp+clause+":"+fk.names[k], where, x.par[k], y.par[k], 1e-10*scale)
+		}
+		for k := range x.str {
+			a.near("conjugate.assoc", sigp+clause+":strength", where+fmt.Sprintf(" component %d", k), x.str[k], y.str[k], 1e-12*y.str[k])
+		}
+	}
+	cmp("batchwise-differs-from-pooled", sAB, sP)
+	cmp("depends-on-batch-order", sBA, sAB)
+	// (a) closed form of the documented prior for the pooled batch
+	c := mk()
+	ss := make([]float64, nss)
+	n := c.SuffStat(ss, AB[0], AB[1])
+	var wsum, mean kahan
+	for i, x := range AB[0] {
+		w := 1.0
+		if AB[1] != nil {
+			w = AB[1][i]
+		}
+		wsum.add(w)
+		mean.add(w * x)
+	}
+	mu := mean.s / wsum.s
+	a.near("conjugate.n", "distuv."+fk.name+".SuffStat|"+class+"|wrong-sample-count", where, n, wsum.s, 1e-12*wsum.s)
+	switch fk.name {
+	case "Normal":
+		var v kahan
+		for i, x := range AB[0] {
+			w := 1.0
+			if AB[1] != nil {
+				w = AB[1][i]
+			}
+			v.add(w * (x - mu) * (x - mu))
+		}
+		a.near("conjugate.suffstat", "distuv.Normal.SuffStat|"+class+"|suffStat[0]-not-the-mean", where, ss[0], mu, 1e-12*(math.Abs(mu)+1))
+		a.near("conjugate.suffstat", "distuv.Normal.SuffStat|"+class+"|suffStat[1]-not-the-uncorrected-std", where, ss[1], math.Sqrt(v.s/wsum.s), 1e-10*math.Sqrt(v.s/wsum.s))
+		s0, s1 := str0[0], str0[1]
+		wantMu := (wsum.s*mu + s0*prior[0]) / (wsum.s + s0)
+		wantVar := (v.s + s1*prior[1]*prior[1] + s0*wsum.s*(mu-prior[0])*(mu-prior[0])/(wsum.s+s0)) / (wsum.s + s1)
+		a.near("conjugate.closed", sigp+"differs-from-documented-posterior:Mu", where, sP.par[0], wantMu, 1e-10*scale)
+		a.near("conjugate.closed", sigp+"differs-from-documented-posterior:Sigma", where, sP.par[1], math.Sqrt(wantVar), 1e-10*scale)
+	case "Exponential":
+		a.near("conjugate.suffstat", "distuv.Exponential.SuffStat|"+class+"|suffStat[0]-not-the-inverse-mean", where, ss[0], 1/mu, 1e-12/mu)
+		want := (wsum.s + str0[0]) / (wsum.s*mu + str0[0]/prior[0])
+		a.near("conjugate.closed", sigp+"differs-from-documented-posterior:Rate", where, sP.par[0], want, 1e-10*want)
+	}
+	// (d) an empty batch (no sample weight) leaves parameters and strengths unchanged
+	c = mk()
+	str := append([]float64(nil), str0...)
+	dummy := make([]float64, nss)
+	for k := range dummy {
+		dummy[k] = 1.25
+	}
+	if msg, panicked := try(func() { c.ConjugateUpdate(dummy, 0, str) }); panicked {
+		a.fail(sigp+"panics", where+" empty batch", "panic: %s", msg)
+		return
+	}
+	a.eval("distuv."+fk.name+".ConjugateUpdate|empty-batch", 1)
+	got := fk.params(c)
+	for k := range got {
+		a.near("conjugate.empty", "distuv."+fk.name+".ConjugateUpdate|empty-batch|parameter-changed:"+fk.names[k], where, got[k], prior[k], 1e-14*(math.Abs(prior[k])+math.Abs(prior[len(prior)-1])))
+	}
+	for k := range str {
+		a.near("conjugate.empty", "distuv."+fk.name+".ConjugateUpdate|empty-batch|strength-changed", where, str[k], str0[k], 0)
+	}
+}
+
+// setParams stores a parameter vector (in fitKind.names order) into a
+// Fit-capable receiver.
+func setParams(f fitter, p []float64) {
+	switch d := f.(type) {
+	case *distuv.Normal:
+		d.Mu, d.Sigma = p[0], p[1]
+	case *distuv.Exponential:
+		d.Rate = p[0]
+	case *distuv.Laplace:
+		d.Mu, d.Scale = p[0], p[1]
+	}
+}
+
+// conjugateInventory lists (by reflection over every distuv type of the
+// grid) the types that implement ConjugateUpdate and reports one that the
+// deep check does not know.
+func (m *mon) conjugateInventory() {
+	known := map[string]bool{}
+	for _, fk := range fitKinds {
+		if _, ok := fk.fresh().(conjugater); ok {
+			known[fk.name] = true
+		}
+	}
+	found := map[string]bool{}
+	for typ, ls := range allLaws() {
+		v := ls[0].mk(nil)
+		if _, ok := reflect.PointerTo(reflect.TypeOf(v)).MethodByName("ConjugateUpdate"); ok {
+			found[typ] = true
+			if !known[typ] {
+				m.c.Inconclusive("uvfit.conjugate", "distuv."+typ+" implements ConjugateUpdate but has no entry in fitKinds: its conjugate update is not checked")
+			}
+		}
+	}
+	m.c.NoteSet("distuv_types_with_ConjugateUpdate", found)
 }
